@@ -133,18 +133,21 @@ Fixpoint atol_digits (base limit ldl : Z) (p : list Z) (l : Z) : option Z :=
       else Some l
   end.
 
+Definition atol_pos (q : list Z) (base : Z) : Z :=
+  match atol_digits base (Z.quot INT64_MAX base) (Z.rem INT64_MAX base) q 0 with
+  | Some l => l
+  | None => INT64_MAX
+  end.
+Definition atol_neg (t : list Z) (base : Z) : Z :=
+  match atol_digits base (- (Z.quot INT64_MIN base)) (- (Z.rem INT64_MIN base)) t 0 with
+  | Some l => - l
+  | None => INT64_MIN
+  end.
+
 Definition tar_atol_base_n (p : list Z) (base : Z) : Z :=
   match skip_ws p with
-  | 45 :: t =>
-      match atol_digits base (- (Z.quot INT64_MIN base)) (- (Z.rem INT64_MIN base)) t 0 with
-      | Some l => - l
-      | None => INT64_MIN
-      end
-  | q =>
-      match atol_digits base (Z.quot INT64_MAX base) (Z.rem INT64_MAX base) q 0 with
-      | Some l => l
-      | None => INT64_MAX
-      end
+  | c :: t => if c =? 45 then atol_neg t base else atol_pos (c :: t) base
+  | [] => atol_pos [] base
   end.
 
 Definition tar_atol8 (p : list Z) : Z := tar_atol_base_n p 8.
